@@ -616,24 +616,30 @@ def run(ctx):
     if cc:
         evaluate_acct(ctx, res, cc, 'corpus', thr)
     res['scopes']['corpus'] = len(cc)
-    depth = 5 if ctx.deep else 4
+    # quick-size scopes first; the thorough volume is only added while nothing has failed
+    depth = 4
     ex = list(exhaustive_grid(depth))
     evaluate_acct(ctx, res, ex, 'exhaustive', thr)
+    if ctx.deep and not res.failed:
+        depth = 5
+        ex5 = [c for c in exhaustive_grid(5) if len(c[2]) == 5]
+        evaluate_acct(ctx, res, ex5, 'exhaustive', thr)
+        ex += ex5
     res['scopes']['exhaustive'] = {'alphabet': 11, 'max_len': depth, 'histories': len(ex)}
-    nrand = 120000 if ctx.deep else 6000
+    nrand = 120000 if ctx.deep and not res.failed else 6000
     cases = []
     for _ in range(nrand):
         cfg = random_cfg(rng)
         cases.append((cfg, rng.random() < 0.15, random_history(rng, cfg)))
     evaluate_acct(ctx, res, cases, 'random', thr)
     res['scopes']['random_histories'] = nrand
-    nsess = 6000 if ctx.deep else 400
+    nsess = 6000 if ctx.deep and not res.failed else 400
     scases = [random_session_script(rng) for _ in range(nsess)]
     evaluate_session(ctx, res, scases)
     res['scopes']['session'] = nsess
     for cfg, client, ops in cases[:2]:
         res.sample({'cfg': cfg, 'client': client, 'ops': ' '.join(op_text(o) for o in ops)[:300]})
-    return res.finish(RULE, exhaustive=True)
+    return res.finish(RULE, exhaustive=not res.failed)
 
 
 def replay(ctx, case):
